@@ -270,6 +270,30 @@ def shard_titles(sh):
                             st.violation('option-changed:add-existing-title:depth', script, snaps[0], snaps[1])
                         elif dumps[0] != dumps[1]:
                             st.violation('other-option-changed:add-existing-title:depth', script, dumps[0], dumps[1])
+        # removing / addressing an instance that does not exist, by an index that is out of range in every way (beyond the count,
+        # negative, wrapping to a valid one when cut to 32 bits)
+        for call in ['rmsec A ' + enc(b'm=' + ix) for ix in (b'2', b'99', b'-1', b'4294967296', b'4294967297', b'18446744073709551616', b'-4294967296')] + \
+                    ['rmsec A ' + enc(b'm=0|in=a|deep=' + ix) for ix in (b'zz',)] + \
+                    ['setint A %s 9' % enc(b'm=' + ix + b'|in=a|deep=a|z') for ix in (b'2', b'4294967296', b'4294967297')] + \
+                    ['rmnsec A %s %s' % (enc(b'm'), ix) for ix in ('2', '99', '4294967295')]:
+            lines = ['init A T3 %d' % flags, 'cb_quiet 1', 'parse_buf A ' + enc(setup), 'snapshot A/m', 'dump A 7', 'note refused call', call, 'snapshot A/m', 'dump A 7']
+            c = Case(lines)
+            r = drv.run([c])[0]
+            st.evaluations += 1
+            st.transitions += 1
+            st.validated += 1
+            script = 'schema T3 %s\n%s' % (T3.spec(), c.script())
+            if r.status in ('crash', 'hang'):
+                st.violation('%s:%s' % (r.status, engine.sanitizer_summary(r.info)), script, 'failure return', engine.excerpt(r.info))
+                continue
+            snaps, dumps = r.all('snap '), r.all('dump ')
+            rl = [l for l in r.lines if l.startswith('r rmsec ') or l.startswith('r setint ') or l.startswith('r rmnsec ')]
+            st.outcome((rl[-1] if rl else '') + snaps[0])
+            st.nontriv('%d|%s' % (flags, call))
+            if not rl or not rl[-1].endswith(' -1'):
+                st.violation('not-refused:missing-instance', script, 'failure return', rl[-1] if rl else 'none')
+            elif snaps[0] != snaps[1] or dumps[0] != dumps[1]:
+                st.violation('option-changed:missing-instance', script, dumps[0], dumps[1])
             # the control: in a case-sensitive context the other letter case is another title - the call succeeds
     st.samples.append({'targets': [t[0].decode() for t in targets], 'contexts': ['case-sensitive', 'CFGF_NOCASE'], 'setup': setup.decode()})
     return st.result([drv])
